@@ -63,9 +63,14 @@ func (m *Sim) inject(x string) {
 		m.W.mu.Unlock()
 		m.S.Yield()
 		m.Logf("X "+x, "read error injected")
-	case "writeerr":
+	case "writeerr", "writeeof":
 		m.W.mu.Lock()
-		m.W.ep[side].writeErr = errors.New("injected write error")
+		if kind == "writeeof" {
+			// a transport that reports its failure as io.EOF on the write side only
+			m.W.ep[side].writeErr = fmt.Errorf("transport gone: %w", io.EOF)
+		} else {
+			m.W.ep[side].writeErr = errors.New("injected write error")
+		}
 		m.W.mu.Unlock()
 		// make sure something is written soon: poke the association if it exists
 		if a != nil {
@@ -348,7 +353,7 @@ func crashScenario(spec *crashSpec) *Scenario {
 }
 
 func propC09(j *Job) {
-	xs := []string{"closeA", "closeB", "abortA", "abortB", "readerrA", "readerrB", "writeerrA", "writeerrB", "conncloseA", "conncloseB", "ctxcancelA"}
+	xs := []string{"closeA", "closeB", "abortA", "abortB", "readerrA", "readerrB", "writeerrA", "writeerrB", "conncloseA", "conncloseB", "ctxcancelA", "writeeofA", "writeeofB"}
 	type base struct {
 		name string
 		a, b epCfg
